@@ -126,7 +126,7 @@ HARNESSES += [
     {"name": "process_fork_child", "props": ["C11", "C12", "C04", "C10"], "src": "h_process_fork.c",
      "contracts": ["public.h"], "includes": ["process.posix.c"], "enforce": "process_fork",
      "replace": ["fd_in_set"], "loop_contracts": True,
-     "defs": {"SIDE_CHILD": None, "VERIF_LOOP_CONTRACTS": None}, "unwind": 34,
+     "defs": {"SIDE_CHILD": None, "VERIF_LOOP_CONTRACTS": None}, "unwind": 34, "must_fail": ["reach/_exit"],
      "pre_unwind": [{"file": "process.posix.c", "text": "signal < 32; signal++", "bound": 34}],
      "what": "process_fork, child side: signal reset loop (32, fully unrolled), close-all loop closed by a loop contract "
              "(unbounded up to the 1 Mi cap), failures reported through the error pipe (_exit contract)"},
@@ -143,7 +143,7 @@ HARNESSES += [
     {"name": "process_start_child", "props": ["C10", "C11", "C12", "C03", "C04"], "src": "h_process_start.c",
      "contracts": ["public.h"], "includes": ["process.posix.c", "strv.c"], "enforce": "process_start",
      "replace": ["process_fork", "path_prepend_cwd"],
-     "defs": {"SIDE_CHILD": None}, "unwind": 10,
+     "defs": {"SIDE_CHILD": None}, "unwind": 10, "no_leak_check": True, "must_fail": ["reach/exec", "reach/_exit"],
      "what": "process_start, child side: symbolic, possibly aliasing child handles; the execvp contract of the OS layer "
              "asserts stream identity and direction, close-on-exec of everything else, the exit handle, signal state, "
              "program, argv, environment and working directory; failures go through the error pipe"},
